@@ -52,6 +52,8 @@ P = {
  'C06': dict(families=[('mixed', 150, 2500, 120), ('iter', 100, 1500, 120), ('entry', 60, 1000, 120), ('clone', 80, 1200, 120), ('core', 60, 1000, 120)], aspects='RSDK', profiles=['debug', 'release'],
              theorems=['C06_moves_drop_nothing', 'C06_insert_drops_duplicate_key_only', 'C06_remove_hands_back', 'C06_lookup_drops_nothing', 'C06_reserve_drops_nothing',
                        'C06_shrink_drops_nothing', 'C06_iter_drops_nothing', 'C06_clear_drops_each_once', 'C06_drop_map_drops_each_once', 'C06_lite_reachable']),
+ 'C13': dict(families=[('set', 120, 1500, 120)], aspects='RSD', profiles=['debug', 'release'],
+             theorems=['C13_element_ops_refine', 'C13_algebra', 'C13_predicates', 'C13_iter_each_once']),
  'C05': dict(families=[('mixed', 120, 2000, 120), ('entry', 80, 1500, 120), ('iter', 80, 1500, 120)], aspects='RS', profiles=['debug', 'release'],
              theorems=['C05_no_fault', 'C05_cursor_agrees']),
 }
